@@ -471,12 +471,24 @@ def determinism(engine, variant, profile, n):
             for i in range(0, len(a), 2):
                 t[a[i]] = a[i + 1]
         tables.append(t)
-    bad = [i for i in tables[0] if any(tb.get(i) != tables[0][i] for tb in tables[1:])]
+    common = set(tables[0]); [common.intersection_update(t) for t in tables[1:]]
+    bad = [i for i in common if any(tb[i] != tables[0][i] for tb in tables[1:])]
     miss = [len(t) for t in tables]
     log("determinism %s/%s/%s: %d seeds x 3 worker layouts (%s runs each), %d mismatching" % (engine, variant, profile, n, miss, len(bad)))
     if bad:
         log("first mismatching run indices: %s" % sorted(bad)[:10])
-    return 2 if bad or len(set(miss)) != 1 else 0
+    return 2 if bad or len(common) < n else 0
+
+def determinism_all(n):
+    """every engine profile used by some check"""
+    seen = set(); rc = 0
+    for plan in PLANS.values():
+        for (e, v, pr, _, _) in plan:
+            if (e, v, pr) in seen:
+                continue
+            seen.add((e, v, pr))
+            rc = max(rc, determinism(e, v, pr, n))
+    return rc
 
 def main():
     a = sys.argv[1:]
@@ -492,6 +504,8 @@ def main():
         return check(a[1], tier)
     if a[0] == "replay":
         return replay(a[1])
+    if a[0] == "determinism-all":
+        return determinism_all(int(a[1]) if len(a) > 1 else 1000)
     if a[0] == "determinism":
         return determinism(a[1], a[2], a[3], int(a[4]) if len(a) > 4 else 2000)
     print(__doc__); return 2
